@@ -170,7 +170,7 @@ def shrink(batch, payload, rec, target, max_replays=160, wall=45.0, timeout=60.0
 
 def write_replay(prop, engine_name, payload, choices, rec, target):
     os.makedirs(os.path.join(VERIF, 'replays'), exist_ok=True)
-    path = os.path.join(VERIF, 'replays', f"{prop}-{payload['seed']}.json")
+    path = os.path.join(VERIF, 'replays', f"{prop}-{payload['seed']}-{target['cls']}.json")
     doc = {
         'property': prop, 'engine': engine_name, 'seed': payload['seed'], 'tier': payload.get('tier'),
         'force': payload.get('force'), 'extra': {k: v for k, v in payload.items() if k not in ('seed', 'tier', 'force', 'choices')},
